@@ -13,6 +13,7 @@ import (
 	"github.com/hashicorp/go-hclog"
 	"github.com/openbao/openbao/sdk/v2/logical"
 	"github.com/openbao/openbao/sdk/v2/physical"
+	"github.com/openbao/openbao/sdk/v2/physical/inmem"
 	"github.com/openbao/openbao/sdk/v2/zzverif/c13core"
 	"github.com/openbao/openbao/sdk/v2/zzverif/vh"
 	"github.com/openbao/openbao/v2/internal/vault/barrier"
@@ -46,6 +47,12 @@ func TestVerifC13(t *testing.T) {
 		{Kind: "raft", Weight: 4, MaxKeys: 25, BarrierView: bview, KeySizeBoundary: true,
 			Fresh: func() physical.Backend { wipe(rb.fsm); return rb }},
 	}
+	// the real encrypting storage barrier (TransactionalAESGCMBarrier over inmem's transactional backend, initialised
+	// and unsealed), reached through a barrier view as in a running server, adapted to the physical interface: to the
+	// key/value and listing contract it is transparent — driven as kind "inmemtx", with and without transactions
+	targets = append(targets, c13core.Target{Kind: "inmemtx", Weight: 4, MaxKeys: 25, BarrierView: bview,
+		Implicit: []c13core.Layer{{Kind: "bview", Prefix: "logical/m/"}},
+		Fresh:    func() physical.Backend { return c13NewBarrierBackend(t) }})
 	cases := vh.EnvInt("VERIF_C13_CASES", 500)
 	big := 1
 	if vh.Thorough() {
@@ -77,4 +84,100 @@ func getRaftWithDirQuiet(t testing.TB, raftDir string) *RaftBackend {
 	}
 	backend.DisableAutopilot()
 	return backend
+}
+
+// ------------------------------------------------------------------------------------------------
+// the storage barrier as a physical.Backend
+
+type c13BarStore struct{ s logical.Storage }
+
+func c13NewBarrierBackend(t testing.TB) physical.Backend {
+	raw, err := inmem.NewInmem(nil, hclog.NewNullLogger())
+	if err != nil {
+		t.Fatal(err)
+	}
+	sb := barrier.NewAESGCMBarrier(raw.(physical.TransactionalBackend), nil)
+	key, err := sb.GenerateKey()
+	if err != nil {
+		t.Fatal(err)
+	}
+	ctx := context.Background()
+	if err := sb.Initialize(ctx, key, nil); err != nil {
+		t.Fatal(err)
+	}
+	if err := sb.Unseal(ctx, key); err != nil {
+		t.Fatal(err)
+	}
+	return &c13BarBackend{c13BarStore{sb}}
+}
+
+func (b c13BarStore) Put(ctx context.Context, e *physical.Entry) error {
+	return b.s.Put(ctx, &logical.StorageEntry{Key: e.Key, Value: e.Value})
+}
+
+func (b c13BarStore) Get(ctx context.Context, k string) (*physical.Entry, error) {
+	e, err := b.s.Get(ctx, k)
+	if err != nil || e == nil {
+		return nil, err
+	}
+	return &physical.Entry{Key: e.Key, Value: e.Value}, nil
+}
+
+func (b c13BarStore) Delete(ctx context.Context, k string) error { return b.s.Delete(ctx, k) }
+// the barrier's own records (core/keyring, core/root-key) live beside the data: hidden from root listings
+func c13HideCore(p string, ks []string, err error) ([]string, error) {
+	if err != nil || p != "" {
+		return ks, err
+	}
+	out := ks[:0:0]
+	for _, k := range ks {
+		if k != "core/" {
+			out = append(out, k)
+		}
+	}
+	return out, nil
+}
+
+func (b c13BarStore) List(ctx context.Context, p string) ([]string, error) {
+	ks, err := b.s.List(ctx, p)
+	return c13HideCore(p, ks, err)
+}
+
+func (b c13BarStore) ListPage(ctx context.Context, p, after string, limit int) ([]string, error) {
+	if p == "" && limit > 0 {
+		ks, err := b.s.ListPage(ctx, p, after, limit+1)
+		ks, err = c13HideCore(p, ks, err)
+		if len(ks) > limit {
+			ks = ks[:limit]
+		}
+		return ks, err
+	}
+	ks, err := b.s.ListPage(ctx, p, after, limit)
+	return c13HideCore(p, ks, err)
+}
+
+type c13BarBackend struct{ c13BarStore }
+
+type c13BarTxn struct {
+	c13BarStore
+	tx logical.Transaction
+}
+
+func (t *c13BarTxn) Commit(ctx context.Context) error   { return t.tx.Commit(ctx) }
+func (t *c13BarTxn) Rollback(ctx context.Context) error { return t.tx.Rollback(ctx) }
+
+func (b *c13BarBackend) BeginTx(ctx context.Context) (physical.Transaction, error) {
+	tx, err := b.s.(logical.TransactionalStorage).BeginTx(ctx)
+	if err != nil {
+		return nil, err
+	}
+	return &c13BarTxn{c13BarStore{tx}, tx}, nil
+}
+
+func (b *c13BarBackend) BeginReadOnlyTx(ctx context.Context) (physical.Transaction, error) {
+	tx, err := b.s.(logical.TransactionalStorage).BeginReadOnlyTx(ctx)
+	if err != nil {
+		return nil, err
+	}
+	return &c13BarTxn{c13BarStore{tx}, tx}, nil
 }
